@@ -263,6 +263,15 @@ def observe(rows: list[Row], stats: dict) -> list[dict]:
             sc3 = x.Scenario(r.sc.cmd_frame, r.sc.gw, r.sc.wait, list(r.sc.frames), flt="known+nogw")
             extra.append(Row(r.fam, r.m, r.c, r.csrc, r.gw, r.wait, r.pk, sc3, r.variant + "+flt-nogw"))
     stats["rows_behind_enforced_known_list"] = len(extra)
+    # ... and every fourth exchange once more with the application taking a state snapshot (pause / resume of the protocol in
+    # one callback) while the echo / reply are on their way: what is recognised must not depend on it
+    snaps = []
+    for n, r in enumerate(rows):
+        if n % 4 == 2 and r.sc.flt == "":
+            sc4 = x.Scenario(r.sc.cmd_frame, r.sc.gw, r.sc.wait, list(r.sc.frames), flt="snap")
+            snaps.append(Row(r.fam, r.m, r.c, r.csrc, r.gw, r.wait, r.pk, sc4, r.variant + "+snap"))
+    stats["rows_with_snapshot_mid_exchange"] = len(snaps)
+    extra.extend(snaps)
     rows.extend(extra)
     stats["loop_exceptions"] = x.run_scenarios([r.sc for r in rows])
     dropped = [r for r in rows if r.sc.ret < 0]
